@@ -65,6 +65,7 @@ type FileSpec struct {
 	Data Bytes  `json:"data,omitempty"`
 	Link string `json:"link,omitempty"` // symbolic link target
 	HardLink string `json:"hard_link,omitempty"` // another name of the file at this (absolute) path: same inode, same bytes
+	Age      int64  `json:"age,omitempty"`       // seconds by which the modification time lies before the world's epoch (negative: in the future)
 }
 
 // Fault kinds. Error-returning kinds are errno names; the others corrupt.
